@@ -23,7 +23,7 @@ import c16_objmodel as om
 INST = os.path.join(HERE, "c18_inst.C")
 LIB_DIRS = ["src/kernel/gmp++", "src/kernel/integer", "src/kernel/rational", "src/kernel/memory", "src/kernel/system", "src/kernel/bstruct"]
 SKIP_C = {"gmp++_int.C"}              # only #includes the other gmp++_int_*.C files
-VERSION = "c18-values-v8"
+VERSION = "c18-values-v11"
 
 # ---- what a write to a static may be.  Anything that is not matched here is reported (site = the function, klass = the statics).
 # (regular expression on "Class::function", set of statics or None = any, category, reason)
@@ -66,7 +66,24 @@ def cache_key():
     return vf.file_hash(vf.repo_sources() + [INST, om.INST, os.path.join(HERE, "c18_values.h"), os.path.abspath(__file__), om.__file__], VERSION)
 
 
-def dump_ast(cdir, with_domains=True):
+# explicit instantiations (every non-template member gets a body in the dump) of rings that are rarely instantiated
+EXPLICIT = ["Modular<int8_t>", "Modular<int16_t>", "Modular<uint8_t>", "Modular<uint16_t>", "Modular<int32_t, int64_t>", "Modular<uint32_t, uint64_t>",
+            "Modular<int64_t, uint64_t>", "Modular<float, double>", "Modular<RecInt::ruint<6> >", "Modular<RecInt::ruint<7>, RecInt::ruint<8> >",
+            "Modular<RecInt::rint<7> >", "ModularExtended<double>", "ModularExtended<float>", "ZRing<Integer>", "ZRing<double>", "ZRing<int64_t>"]
+
+
+def explicit_lines(with_domains):
+    have = set()
+    if with_domains:
+        try:
+            txt = re.sub(r"//[^\n]*", "", open(om.INST).read())
+            have = set(re.sub(r"\s+", "", m) for m in re.findall(r"template\s+(?:class|struct)\s+([^;]+);", txt))
+        except OSError:
+            pass
+    return ["    template class %s;" % x for x in EXPLICIT if re.sub(r"\s+", "", x) not in have]
+
+
+def dump_ast(cdir, with_domains=True, explicit=True):
     """with_domains: also the instantiation unit of the object model (harness/c16_inst.C, every domain class of C16/C18)"""
     tu = os.path.join(cdir, "tu-%d.C" % os.getpid())
     with open(tu, "w") as f:
@@ -75,6 +92,8 @@ def dump_ast(cdir, with_domains=True):
         if with_domains:
             f.write('#include "%s"\n' % om.INST)
         f.write('#include "%s"\n' % INST)
+        if explicit:
+            f.write("namespace Givaro {\n%s\n}\n" % "\n".join(explicit_lines(with_domains)))
     cmd = ["clang++", "-std=gnu++11"] + vf.inc_flags() + ["-I" + HERE, "-DNDEBUG", "-DHAVE_CONFIG_H", "-D" + vf.GUARD, "-DRecInt=Givaro_RecInt", "-w",
            "-fsyntax-only", "-Xclang", "-ast-dump=json", "-Xclang", "-ast-dump-filter=Givaro", tu]
     try:
@@ -109,31 +128,17 @@ UNSAFE_EXTERNALS = {"rand", "srand", "random", "srandom", "drand48", "lrand48", 
 
 
 class VFnInfo(om.FnInfo):
-    """the access-path classification of c16_objmodel, looking through parentheses: the context of (e) is the context of e
-    (`x ^= !(Table[i])` reads Table)"""
+    """the access-path classification of c16_objmodel (parentheses looked through, unresolvable receivers are operands, local
+    pointer / reference aliases of `this` and of statics substituted) + calls to thread-unsafe externals as writes to hidden state"""
 
     def _visit(self, n, parent):
-        k = n.get("kind")
-        if k == "ParenExpr":
-            for c in om.kids(n):
-                self._visit(c, parent)
-            return
-        if k in ("CallExpr", "CXXMemberCallExpr", "CXXOperatorCallExpr"):
-            # c16_objmodel treats a receiver it cannot resolve (a call result, a conditional, a temporary: `assign(f, one) <<= k`)
-            # like the implicit `this`; here such a receiver is an operand (thread-private), only a resolved path rooted at
-            # `this` or at a static is shared state
-            cid, recv = om._callee_id(n)
-            rp = om.access_path(recv, self) if recv is not None else None
-            if recv is not None and rp is None:
-                rp = om.Path("local", "<temporary>", [], False, False)
+        if n.get("kind") in ("CallExpr", "CXXMemberCallExpr", "CXXOperatorCallExpr"):
             ks = om.kids(n)
             cname = om._callee_name(ks[0]) if ks else None
-            if cname in UNSAFE_EXTERNALS and (cid is None or self.idx.body(cid) is None):
-                self.effects.append({"kind": "global_write", "var": "libc:" + cname, "type": ""})
-            self.calls.append((cid, rp, cname, self._in_static_init > 0))
-            for c in ks:
-                self._visit(c, n)
-            return
+            if cname in UNSAFE_EXTERNALS:
+                cid, _ = om._callee_id(n)
+                if cid is None or self.idx.body(cid) is None:
+                    self.effects.append({"kind": "global_write", "var": "libc:" + cname, "type": ""})
         om.FnInfo._visit(self, n, parent)
 
 
@@ -280,11 +285,14 @@ def build(log=None):
             return j, None, False
         except Exception:
             pass
-    objs, lg, timed_out = dump_ast(cdir, True)
-    domains = True
+    objs, lg, timed_out = dump_ast(cdir, True, True)
+    domains, explicit = True, True
     if objs is None and not timed_out:
-        objs, lg2, timed_out = dump_ast(cdir, False)          # the object model's unit does not compile together with ours: go on without it
-        domains = False
+        objs, lg2, timed_out = dump_ast(cdir, True, False)    # an explicit instantiation of ours clashes with the object model's unit
+        explicit = False
+    if objs is None and not timed_out:
+        objs, lg2, timed_out = dump_ast(cdir, False, True)    # the object model's unit does not compile together with ours: go on without it
+        domains, explicit = False, True
         lg = lg2 if objs is None else lg
     if objs is None:
         return None, lg, timed_out
@@ -337,7 +345,7 @@ def build(log=None):
                 visit(b2, depth + 1)
     for b in fams.values():
         visit(b)
-    meta = {"cached": False, "key": key, "domain_classes_included": domains, "note": (None if domains else "harness/c16_inst.C could not be compiled in the same unit: " + lg[-300:]), "clang_seconds": round(t1 - t0, 2), "seconds": round(time.time() - t0, 2), "ast_objects": len(objs),
+    meta = {"cached": False, "key": key, "domain_classes_included": domains, "explicit_instantiations": explicit_lines(domains) if explicit else [], "note": (None if (domains and explicit) else "harness/c16_inst.C could not be compiled in the same unit: " + lg[-300:]), "clang_seconds": round(t1 - t0, 2), "seconds": round(time.time() - t0, 2), "ast_objects": len(objs),
             "decls_indexed": len(idx.decl), "functions_with_body": len(ops), "template_patterns_skipped": npat, "families_in_dump": sorted(b.get("name") for b in fams.values()),
             "reachable_from_families": len(reach), "library_sources": [os.path.relpath(p, vf.REPO) for p in lib_sources()],
             "calls_resolved": an.stats["calls_resolved"], "calls_unresolved": an.stats["calls_unresolved"]}
@@ -387,7 +395,8 @@ def emit_coq(res):
     docset = {id(o) for o, _, _ in doc}
     lines = ["(* GENERATED by harness/c18_values.py from the clang JSON AST of the library's .C files + harness/c18_inst.C, compiled against the",
              "   current headers of the repository.  Do not edit: rewritten by every run of checks/C18.py.",
-             "   One entry per function body of the value classes (Integer, Rational, RecInt, integer domains): the statics it touches. *)",
+             "   One entry per function body in the dump (Integer, Rational, RecInt, integer domains, allocator, start-up, every instantiated ring /",
+             "   field / polynomial domain): the statics it touches and, for const members, the own members written through mutable / casts / pointers. *)",
              "From Coq Require Import String List.", "From C16 Require Import ObjModel RaceFreeValues.", "Import ListNotations.", "Local Open Scope string_scope.", "",
              "Definition value_ops : list vop := ["]
     ents = []
@@ -408,6 +417,12 @@ def emit_coq(res):
     lines.append("Definition Decide_values_offenders_stmt : Prop := value_offenders value_ops = %s." % om.coq_list([om.coq_str(o["uid"]) for o in off]))
     lines.append("Lemma decide_values_offenders : Decide_values_offenders_stmt.")
     lines.append("Proof. vm_compute. reflexivity. Qed.")
+    lines.append("")
+    lines.append("(* hence every operation of the current source that is not a documented writer satisfies the hypothesis of values_concurrent *)")
+    lines.append("Definition SourceOperationsAccepted_stmt : Prop :=")
+    lines.append("  forall n o, find_vop value_ops n = Some o -> vo_documented o = false -> accepted value_ops n = true.")
+    lines.append("Lemma source_operations_accepted : SourceOperationsAccepted_stmt.")
+    lines.append("Proof. exact (fun n o => offenders_nil_accepted value_ops n o decide_values_offenders). Qed.")
     return "\n".join(lines) + "\n"
 
 
